@@ -1044,7 +1044,12 @@ class mru_cache(object):
                         cache.clear() 
                         queue.clear()
                     else: # purge most recently used cache entry
-                        k = queue_pop()
+                        k = key # if no use is recorded (e.g. after load)
+                        while queue:
+                            _k = queue_pop()
+                            if _k in cache:
+                                k = _k
+                                break
                         if cache.archived(): cache.dump(k)
                         try: del cache[k]
                         except KeyError: pass #FIXME: possible none purged
